@@ -208,3 +208,15 @@ fn(HF + ':get_indent', props=['C12'],
 # (second attempt after the conjunction change: 76 of 323 obligations within a 240 s budget; withdrawn again)
 # (third attempt after slicing / quantifier hygiene / absolute-position strings: 162 of 998 obligations within 400 s,
 #  every query carries the facts of five to ten contract calls and takes 1-3 s: withdrawn a third time)
+
+# ---------------------------------------------------------------------------------------
+# C12 (last sentence: "the self-closing style changes only the ` /` or `/` before `>`") and C03 (attribute case):
+# the printed tag / attribute name is the written name cased by output.tagCase / output.attributeCase and by
+# nothing else (no other option, in particular not output.selfClosingStyle, enters the result)
+# ---------------------------------------------------------------------------------------
+fn('emmet.output_stream:str_case', inline=True, pure=True, props=['C12', 'C03'])
+fn('emmet.output_stream:attr_name', props=['C12', 'C03'],
+   params={'name': 'str', 'config': 'Config'}, returns='str',
+   requires=[],
+   ensures=["same_str(result, str_case(name, config.options.get('output.attributeCase')))"],
+   modifies=[])
